@@ -26,6 +26,33 @@ func runC03(res *hx.Result, rng *hx.Rng, tier string, outdir string) {
 		n, opts.MaxDepth = 25000, 6
 	}
 	cfg, sw := wireSwitches(res, "value_reader_no_len", "refl_drop8")
+	// the decoder's bound on list and map sizes is not applied by the encoder: the largest list the
+	// decoder must accept, and the smallest one the encoder writes and the decoder refuses
+	for _, k := range []int{4096, 4097} {
+		lt := wg.List(wg.Scalar("C"))
+		lv := &wg.Val{K: wg.VList}
+		for i := 0; i < k; i++ {
+			lv.L = append(lv.L, &wg.Val{K: wg.VNum, W: 1, Bits: uint64(i % 251)})
+		}
+		if sw["refl_drop8"] {
+			break
+		}
+		e, class := reflEnc(rt2("[C]"), lv)
+		if class != ocOK || !bytes.Equal(e, lv.Enc()) {
+			res.Fail("refl-enc-layout", fmt.Sprintf("reflection encoder on a list of %d bytes: class %d, %d bytes written, documented %d", k, class, len(e), len(lv.Enc())))
+			continue
+		}
+		d := reflDec(rt2("[C]"), lt, e)
+		back := d.class == ocOK && d.left == 0 && d.val.Canon() == lv.Canon()
+		if k == 4096 {
+			if !back {
+				res.Fail("refl-dec", fmt.Sprintf("a list of 4096 bytes (the decoder's limit) does not come back: class %d", d.class))
+			}
+			res.Count("limit-4096", true)
+		} else {
+			res.Switch("refl_list_over_4096", !back, "a list of 4097 elements ([C], any element type; maps alike) is written by the reflection encoder exactly as documented and refused by the reflection decoder (list too long: 4097)")
+		}
+	}
 	cs := hx.NewCases(outdir, "C03", "From QV Require Import Wire ParseOpt C03Run.", "mismatches cfg cases", res, "cases", "c03case")
 	cs.Extra = append(cs.Extra, cfg)
 	// directed: every scalar kind in every container position, and the containers of zero-width
